@@ -71,6 +71,13 @@ CLAIMED = {
          "SYMBOLIC row index n the row equals (r_{(n div n_b) div n_o} * o_{(n div n_b) mod n_o}, q_{n mod n_b}); the position array likewise; the "
          "index helpers equal n div n_b / n mod n_b for symbolic n and for index arrays (each single index, reversed, seeded subset with repeats). "
          "The decomposition back into o/b/t grids (np.unique on rounded float rows) is outside.", "§5 C09"),
+ "C11": ("Claimed for radial, direction and index composition; the rotation index b is a stub (eigen-decomposition + SVD: outside) and so is the round "
+         "trip. Radial: for n_t in 2..4 (thorough 6), ALL increasing radii and ALL centre-of-mass vectors: the returned index k satisfies "
+         "R_{k-1} <= |c| <= R_k with the C05/C16 boundaries AND is a nearest radius (the two coincide), NaN iff |c| > R_T unless outliers are included. "
+         "Direction: for n_o in 2..3 (thorough 4), ALL unit direction vectors and ALL c != 0, both metrics: the returned index maximises o_j.c -- by "
+         "a chain of small lemmas (norm positive, |u|=1, keys, key order from the path's comparisons, monotone squares, expansion, positive scaling) "
+         "each discharged in milliseconds where the direct query is unknown in every solver. Composition through the real get_full_assignments with "
+         "n_t=3, n_o=2, n_b in {1,3}: index = (t*n_o+o)*n_b+b, NaN propagates.", "§5 C11"),
 }
 NA = {
  "C03": "Claim is that Qhull's SphericalVoronoi regions/areas are the true nearest-neighbour cells: compiled geometry with no encodable source; a stub would assume the property (the symmetric assembly around it is verified under C04).",
